@@ -577,7 +577,7 @@ Proof.
               end) <> VPanic).
   { intros ubytes lbytes.
     destruct (has_flag c F_CLEANSTACK && negb (has_flag c F_BIP16)); [cbn; discriminate|].
-    destruct (_ || _); [cbn; discriminate|].
+    destruct ((max_script_size c <? lenZ ubytes) || (max_script_size c <? lenZ lbytes)); [cbn; discriminate|].
     destruct (parse_script (c_err_on_checksig c) ubytes) as [u|] eqn:Epu; [|cbn; discriminate].
     destruct (parse_script (c_err_on_checksig c) lbytes) as [l|] eqn:Epl; [|cbn; discriminate].
     destruct (has_flag c F_SIGPUSHONLY && negb (is_push_only u)); [cbn; discriminate|].
@@ -587,4 +587,21 @@ Proof.
     intros Hb. apply andb_true_iff in Hb. tauto. }
   destruct (ei_unlock i) as [|ub ur] eqn:Eu; destruct (ei_lock i) as [|lb lr] eqn:El;
     try (cbn; discriminate); apply Hbody.
+Qed.
+
+(** the parser's fuel is a proof device: any amount at least the script length gives the same result *)
+Lemma parse_ops_fuel eoc : forall f1 f2 bs d, (length bs <= f1)%nat -> (length bs <= f2)%nat ->
+  parse_ops f1 eoc bs d = parse_ops f2 eoc bs d.
+Proof.
+  induction f1 as [|f1 IH]; intros f2 bs d H1 H2.
+  - destruct bs; [|cbn in H1; lia]. destruct f2; reflexivity.
+  - destruct f2 as [|f2]; [destruct bs; [reflexivity|cbn in H2; lia]|].
+    cbn [parse_ops]. destruct bs as [|b r]; [reflexivity|]. cbn [length] in H1, H2.
+    destruct (eoc && _); [reflexivity|]. destruct (_ && _); [reflexivity|].
+    destruct (op_length (b2n b) =? 1).
+    + f_equal. apply IH; lia.
+    + destruct (1 <? op_length (b2n b)).
+      * destruct (Nat.ltb _ _); [reflexivity|]. f_equal. apply IH; rewrite skipn_length; lia.
+      * destruct (Nat.ltb _ _); [reflexivity|]. destruct (_ <? _)%N; [reflexivity|].
+        f_equal. apply IH; rewrite !skipn_length; lia.
 Qed.
